@@ -1256,6 +1256,16 @@ def check_tool_decorator_args(ctx):
         ctx.oracle_fail(case, 'cherrypy.tools.p1("positional") raised %s' % type(e).__name__, 'tool_decorator_positional')
 
 
+def raised_in_code_under_test(e):
+    """Did the exception come out of the cherrypy package (an observation) rather than out of the harness?"""
+    tb = e.__traceback__
+    last = None
+    while tb is not None:
+        last = tb.tb_frame.f_code.co_filename
+        tb = tb.tb_next
+    return last is not None and (os.sep + 'cherrypy' + os.sep) in last
+
+
 def check_hist_cases(ctx, cases, compare_model=True):
     pending = []
     if len(cases) > 1:
@@ -1266,7 +1276,18 @@ def check_hist_cases(ctx, cases, compare_model=True):
             # enough evidence; a broken tree may also make every further request slower (accumulating state)
             ctx.note('history run stopped after %d failing histories' % failing)
             break
-        recs = run_hist(case)
+        try:
+            recs = run_hist(case)
+        except common.HarnessError:
+            raise
+        except Exception as e:
+            if not raised_in_code_under_test(e):
+                raise
+            # building the tree / mounting the applications went through CherryPy code that raised
+            failing += 1
+            ctx.case(case, nontrivial=True)
+            ctx.oracle_fail(case, 'setting up the tree and its applications raised %s: %s' % (type(e).__name__, e), 'config_load_raised')
+            continue
         hist = case['hist']
         ctx.count('hist:apps:%d' % len(hist['apps']))
         ctx.count('hist:kind:' + hist['kind'])
